@@ -137,6 +137,15 @@ JudgeVocab(G, r) ==
   ELSE IF ObsOnly(r.out.e, G.n) THEN Verdict(r.id, TRUE, "ok", NoCmp)
   ELSE Verdict(r.id, FALSE, "vocabulary", NoCmp)
 
+\* vocabulary only (C06), ID* / IDC*: the estimand contains interventional (single-world) terms only - within each
+\* probability term all variables carry the same subscript set (CF.tla SingleWorldOnly); nothing is evaluated
+JudgeSVocab(r) ==
+  IF r.out.k # "expr" THEN Verdict(r.id, TRUE, "no-estimand", NoCmp)
+  ELSE IF "unser" \in DOMAIN r.out THEN Verdict(r.id, FALSE, "vocabulary", NoCmp)
+  ELSE IF r.out.e.t = "0" THEN Verdict(r.id, TRUE, "ok", NoCmp)
+  ELSE IF SingleWorldOnly(r.out.e) THEN Verdict(r.id, TRUE, "ok", NoCmp)
+  ELSE Verdict(r.id, FALSE, "vocabulary", NoCmp)
+
 \* c-factor records (C17): out must denote Q[s] = P(s | do(V \ s)), or be the documented failure
 JudgeQ(G, Ws, r) ==
   CASE r.out.k = "exc" -> Verdict(r.id, FALSE, "other-failure", NoCmp)
@@ -177,6 +186,8 @@ JudgeCanon(Ws, r) ==
                    IF c.nbad > 0 THEN Verdict(r.id, FALSE, "value", c)
                    ELSE Verdict(r.id, TRUE, IF c.ndef = 0 THEN "skip-undefined" ELSE "ok", c)
 \* print / parse (C12): parsing succeeds, same denotation; on the un-nested family also the same object and text
+\* (records marked pub: every probability atom was built with the public builder P(...) / PP[..](...) from operator
+\*  chains, so whatever order the builder gave it *is* the builder's order and the equality clause applies)
 \* (objects built with the raw Product / Fraction constructors are not "constructed with the builders and operators":
 \*  the parser cannot reproduce an unsorted product; only the meaning clause applies to them)
 JudgePP(Ws, r) ==
@@ -188,7 +199,7 @@ JudgePP(Ws, r) ==
               IF "unser" \in DOMAIN r.out THEN Verdict(r.id, FALSE, "parse-not-expression", NoCmp)
               ELSE LET c == Cmp(Ws, r.out.e, r.a) IN
                    IF c.nbad > 0 THEN Verdict(r.id, FALSE, "value", c)
-                   ELSE IF Unnested(r.a, FALSE) /\ BuilderOrdered(r.a) /\ ~("raw" \in DOMAIN r /\ r.raw) /\ (r.out.e # r.a \/ ~r.out.same_obj \/ ~r.out.same_str)
+                   ELSE IF Unnested(r.a, FALSE) /\ (BuilderOrdered(r.a) \/ ("pub" \in DOMAIN r /\ r.pub)) /\ ~("raw" \in DOMAIN r /\ r.raw) /\ (r.out.e # r.a \/ ~r.out.same_obj \/ ~r.out.same_str)
                         THEN Verdict(r.id, FALSE, "roundtrip-equality", c)
                    ELSE Verdict(r.id, TRUE, IF c.ndef = 0 THEN "skip-undefined" ELSE "ok", c)
 \* normal form (C11): two canonical forms that must be identical objects
@@ -381,6 +392,7 @@ Judge(G, Ws, r) ==
     [] r.k = "same"  -> JudgeSame(r)
     [] r.k = "q"   -> JudgeQ(G, Ws, r)
     [] r.k = "vocab" -> JudgeVocab(G, r)
+    [] r.k = "svocab" -> JudgeSVocab(r)
     [] r.k = "cdo" -> JudgeCDo(G, Ws, r)
     [] r.k = "eq"  -> JudgeEq(G, Ws, r)
 
